@@ -767,6 +767,7 @@ def qualifier_sweep(g, max_steps, operands):
                         for qi in sp:
                             cur = g.emit('qualified', [qi, cur], False)
                         n += 1
+                        if n % 3 == 0: g.emit('qualified', [0, cur], False)       # the empty set is refused over a qualified operand too
                         if n % 7 == 0: g.observe_some(cur)
     g.stats['_qualifier_chains'] = g.stats.get('_qualifier_chains', 0) + n
 
